@@ -105,8 +105,8 @@ func (fa *fileAnalysis) engine(fn *ssa.Function) *an.Facts {
 				recvD := d.Of(call.Call.Args[0])
 				for _, p := range s.stores {
 					q := recvD + strings.TrimPrefix(p, s.recv)
-					delete(cur, "nn:"+q)
-					delete(cur, "ge1:"+q)
+					an.KillFact(cur, "nn:"+q)
+					an.KillFact(cur, "ge1:"+q)
 				}
 				if s.void {
 					for _, f := range s.facts {
@@ -129,8 +129,8 @@ func (fa *fileAnalysis) engine(fn *ssa.Function) *an.Facts {
 			return
 		}
 		path := d.Of(st.Addr)
-		delete(cur, "nn:"+path)
-		delete(cur, "ge1:"+path)
+		an.KillFact(cur, "nn:"+path)
+		an.KillFact(cur, "ge1:"+path)
 		switch v := st.Val.(type) {
 		case *ssa.Alloc:
 			cur["nn:"+path] = true
@@ -176,6 +176,10 @@ func (fa *fileAnalysis) engine(fn *ssa.Function) *an.Facts {
 			}
 			if _, isParam := x.(*ssa.Parameter); isParam && nonNil {
 				cur["nn:"+d.Of(x)] = true
+			}
+			if _, isParam := x.(*ssa.Parameter); (ptrField(x) || isParam) && !nonNil {
+				// x is nil here: a disjunction "x or y is non-nil" established earlier now gives y
+				an.ResolveOr(cur, "nn:"+d.Of(x))
 			}
 			// err == nil after a summarised call
 			if ex, isEx := x.(*ssa.Extract); isEx && !nonNil {
